@@ -296,4 +296,50 @@ theorem App.commit_collected (a : App) (c : Cache) (height : Nat) (h : Inv a) :
     simp only [afterBlock, App.infos, e_nv, e_db, e_coll, e_main, e_log, e_msi, e_del, e_cfg,
       List.append_assoc, Tree.saved]
 
+/-! ## what the database holds after the batch -/
+
+/-- one tree's view of the database after a batch that contains its segment. -/
+theorem tree_after (d : PDB) (t : Tree) (ds c0 rest : List WOp) (lastVer : Nat)
+    (hst : StagedOk t) (hds : DelsBelow t.name t.workingVersion ds)
+    (hc0 : NoTouch t.name c0) (hrest : NoTouch t.name rest)
+    (hle : ∀ v, (d.get (.root t.name v)).isSome = true → v ≤ lastVer) (hlt : lastVer < t.workingVersion)
+    (hge : ∀ v, (d.get (.root t.name v)).isSome = true → t.initialVersion ≤ v)
+    (hinit : t.initialVersion ≤ t.workingVersion) :
+    let d' := applyBatch d (c0 ++ (t.saveOps ++ ds) ++ rest)
+    (∀ v, (d'.get (.root t.name v)).isSome = true → v ≤ t.workingVersion) ∧
+    (∀ v, (d'.get (.root t.name v)).isSome = true → t.initialVersion ≤ v) ∧
+    d'.get (.root t.name t.workingVersion) = some (.root ⟨t.nextHist, t.kv⟩) ∧
+    (t.fast = true → d'.get (.stamp t.name) = some (.stampV t.workingVersion)) := by
+  intro d'
+  have key : ∀ v, v ≠ t.workingVersion → (d'.get (.root t.name v)).isSome = true →
+      (d.get (.root t.name v)).isSome = true := by
+    intro v hv hs
+    have e : d'.get (.root t.name v) = _ := get_applyBatch d _ (.root t.name v)
+    rw [e] at hs
+    rcases seg_root_other hst hds hc0 hrest hv with h | h
+    · rw [h] at hs; exact hs
+    · rw [h] at hs; cases hs
+  refine ⟨?_, ?_, ?_, ?_⟩
+  · intro v hs
+    by_cases hv : v = t.workingVersion
+    · omega
+    · have := hle v (key v hv hs); omega
+  · intro v hs
+    by_cases hv : v = t.workingVersion
+    · omega
+    · exact hge v (key v hv hs)
+  · have e : d'.get (.root t.name t.workingVersion) = _ := get_applyBatch d _ _
+    rw [e, seg_root_self hst hds hrest]
+  · intro hf
+    have e : d'.get (.stamp t.name) = _ := get_applyBatch d _ _
+    rw [e, seg_stamp hst hds hc0 hrest, if_pos hf]
+
+theorem lastOp_meta_latest (ver : Nat) (infos : List StoreInfo) :
+    lastOp (metaOps ver infos) .latest = some (some (.ver ver)) := by
+  simp [metaOps, lastOp]
+
+theorem lastOp_meta_cinfo (ver : Nat) (infos : List StoreInfo) :
+    lastOp (metaOps ver infos) (.cinfo ver) = some (some (.cinfo infos)) := by
+  simp [metaOps, lastOp]
+
 end GnoVerif.C27
